@@ -51,6 +51,27 @@ def ProtoErr.goName : ProtoErr → String
   | .invalidUTF8 => "ErrProtocolInvalidUTF8"
   | .unexpectedCompressionBit => "ErrUnexpectedCompressionBit"
 
+/-- The Go error text (ProtocolError's string) — becomes the reason of an automatic 1002 reply. -/
+def ProtoErr.goText : ProtoErr → String
+  | .opCodeReserved => "use of reserved op code"
+  | .controlPayloadOverflow => "control frame payload limit exceeded"
+  | .controlNotFinal => "control frame is not final"
+  | .nonZeroRsv => "non-zero rsv bits with no extension negotiated"
+  | .maskRequired => "frames from client to server must be masked"
+  | .maskUnexpected => "frames from server to client must be not masked"
+  | .continuationExpected => "unexpected non-continuation data frame"
+  | .continuationUnexpected => "unexpected continuation data frame"
+  | .statusCodeNotInUse => "status code is not in use"
+  | .statusCodeApplicationLevel => "status code is only application level"
+  | .statusCodeNoMeaning => "status code has no meaning yet"
+  | .statusCodeUnknown => "status code is not defined in spec"
+  | .invalidUTF8 => "invalid utf8 sequence in close reason"
+  | .unexpectedCompressionBit => "control frame or non-first fragment of data contains compression bit set"
+
+def strBytes (s : String) : Bytes := s.toUTF8.toList.map (·.toNat)
+
+def ProtoErr.textBytes (e : ProtoErr) : Bytes := strBytes e.goText
+
 /-- check.go:CheckHeader — ordered cascade returning the first broken rule. -/
 def checkHeader (h : Header) (s : Nat) : Option ProtoErr :=
   if opIsReserved h.op then some .opCodeReserved
